@@ -55,7 +55,18 @@ def _strip_docstrings(node):
 # ------------------------------------------------------------------------------------------------------
 Q, NAT, B, STR, NONE, PROJ = "Q", "Nat", "B", "Str", "None", "Proj"
 INST, PROFILE, SATCLASS, SAT, KW = "Inst", "Profile", "SatClass", "Sat", "Kw"
-QX, NEGQX, GROUPSAT, TIEBREAK = "Qx", "NegQx", "GroupSat", "TieBreak"     # extended rationals (inf), their negation
+QX, NEGQX, GROUPSAT, TIEBREAK = "Qx", "NegQx", "GroupSat", "TieBreak"
+APROFILE, ABALLOT = "AProfile", "ABallot"     # approval profile as the rule models see it: list aballot
+
+
+def ObjT(cls, fields):
+    """an instance of a small local class: the tuple of its fields"""
+    return ("Obj", cls, tuple(fields))
+
+
+def is_obj(t):
+    t = res(t)
+    return isinstance(t, tuple) and t[0] == "Obj"     # extended rationals (inf), their negation
 
 
 class TV:
@@ -116,7 +127,7 @@ def is_object(t):
     t = res(t)
     if t in (INST, KW):
         return True
-    if is_list(t):
+    if is_list(t) or is_obj(t):
         return True
     if is_opt(t):
         return is_object(t[1])
@@ -140,6 +151,8 @@ def same(a, b):
         return False
     if a[0] == "Tuple":
         return len(a[1]) == len(b[1]) and all(same(x, y) for x, y in zip(a[1], b[1]))
+    if a[0] == "Obj":
+        return a[1] == b[1] and len(a[2]) == len(b[2]) and all(same(x, y) for x, y in zip(a[2], b[2]))
     return same(a[1], b[1])
 
 
@@ -154,10 +167,11 @@ def join(a, b):
         return a if is_opt(a) else Opt(a)
     if isinstance(a, str) and isinstance(b, str) and QX in (a, b) and a in (Q, QX, NAT, B) and b in (Q, QX, NAT, B):
         return QX
-    if is_opt(a) and not is_opt(b):
-        return a if same(a[1], b) else None
-    if is_opt(b) and not is_opt(a):
-        return b if same(b[1], a) else None
+    if is_opt(a) or is_opt(b):
+        ia = a[1] if is_opt(a) else a
+        ib = b[1] if is_opt(b) else b
+        i = join(ia, ib)
+        return None if i is None else Opt(i)
     return a if same(a, b) else None
 
 
@@ -170,7 +184,8 @@ def gty(t):
     if isinstance(t, str):
         g = {Q: "Q", NAT: "nat", B: "bool", STR: "string", PROJ: "proj", INST: "inst", PROFILE: "(py_cprofile SC)",
              SATCLASS: "SC", SAT: "((py_alloc -> Q) * nat)%type", KW: "(py_kwargs X)", NONE: "unit",
-             QX: "Qx", GROUPSAT: "(proj -> Q)", TIEBREAK: "(proj -> Q)"}.get(t)
+             QX: "Qx", GROUPSAT: "(proj -> Q)", TIEBREAK: "(proj -> Q)", APROFILE: "py_aprofile",
+             ABALLOT: "aballot"}.get(t)
         if g is None:
             raise Unsupported("no Gallina type for %s" % t)
         return g
@@ -182,6 +197,8 @@ def gty(t):
         return "(" + " * ".join(gty(x) for x in t[1]) + ")%type"
     if t[0] == "Rule":
         return "(py_rule X %s)" % gty(t[1])
+    if t[0] == "Obj":
+        return "(" + " * ".join(gty(x) for x in t[2]) + ")%type"
     raise Unsupported("no Gallina type for %r" % (t,))
 
 
@@ -368,8 +385,9 @@ def _root_name(n):
     return n.id if isinstance(n, ast.Name) else None
 
 
-def _assigned(stmts):
-    """names (re)bound or mutated in place by the statements, in order of first occurrence"""
+def _assigned(stmts, rec=None, procs=()):
+    """names (re)bound or mutated in place by the statements, in order of first occurrence;
+    rec = (name of a recursive local function, positions of its mutable arguments): a call changes those arguments"""
     out = []
 
     def add(x):
@@ -401,8 +419,25 @@ def _assigned(stmts):
             elif isinstance(s, (ast.For, ast.While)):
                 if isinstance(s, ast.For):
                     targets(s.target)
+                    if isinstance(s.target, ast.Name) and isinstance(s.iter, ast.Name) and any(
+                            isinstance(x, ast.Attribute) and isinstance(x.ctx, ast.Store) and isinstance(x.value, ast.Name)
+                            and x.value.id == s.target.id for st in s.body for x in ast.walk(st)):
+                        add(s.iter.id)
                 go(s.body)
                 go(s.orelse)
+            elif isinstance(s, ast.Expr) and isinstance(s.value, ast.Call) and isinstance(s.value.func, ast.Attribute) \
+                    and s.value.func.attr in ("sort", "clear"):
+                add(_root_name(s.value.func.value))
+            elif isinstance(s, ast.Expr) and isinstance(s.value, ast.Call) and isinstance(s.value.func, ast.Name) \
+                    and s.value.func.id in procs:
+                for a_ in s.value.args:          # a local procedure may change every object it is handed
+                    if isinstance(a_, ast.Name):
+                        add(a_.id)
+            elif rec is not None and isinstance(s, ast.Expr) and isinstance(s.value, ast.Call) \
+                    and isinstance(s.value.func, ast.Name) and s.value.func.id == rec[0]:
+                for i in rec[1]:
+                    if i < len(s.value.args) and isinstance(s.value.args[i], ast.Name):
+                        add(s.value.args[i].id)
     go(stmts)
     return out
 
@@ -442,6 +477,12 @@ class Translator:
         self.params = []
         self.nils = []
         self.module_names = set()
+        self.extras = {}
+        self.classes = {}          # small local classes of the module: name -> ClassDef
+        self.recfuns = set()
+        self.rec_active = None
+        self.rest_has_rec = False
+        self.procs = set()
 
     # ---------------- bookkeeping ----------------
     def snapshot(self):
@@ -518,6 +559,14 @@ class Translator:
             seen.add(x)
             self.objs[x].mutated = True
             stack.extend(self.objs[x].sources)
+
+    def is_stored(self, oid, env, seen=None):
+        seen = seen or set()
+        if oid in seen:
+            return False
+        seen.add(oid)
+        o = self.objs[oid]
+        return oid in env.get("$stored", ()) or any(self.is_stored(x, env, seen) for x in o.sources)
 
     def escape_into(self, container_oid, v):
         """v is stored into the container: the container's elements may now be v's object"""
@@ -619,6 +668,12 @@ class Translator:
         v = self.unwrap(v)
         if is_list(v.ty):
             return v
+        if res(v.ty) == APROFILE:
+            return V(v.term, List(ABALLOT), v.oid, extra={"profile_term": v.term})
+        if res(v.ty) == INST and v.extra.get("param"):
+            # the order in which the instance (a set of projects) is iterated: a parameter of the generated function
+            self.extras["v_enum"] = "(list proj)"
+            return V("v_enum", ALLOC, self.new_obj(FRESH), extra={"subset_of": {"v_enum"}, "is_set": True})
         raise Unsupported("iteration over a %r" % (res(v.ty),))
 
     # ---------------- expressions ----------------
@@ -633,6 +688,8 @@ class Translator:
             return env[n.id]
         if n.id == "inf" and "inf" in self.module_names:        # from math import inf
             return V("PInf", QX)
+        if n.id == "lexico_tie_breaking" and "lexico_tie_breaking" in self.module_names:
+            return V("py_name", TIEBREAK)       # Props/TieGen.v: the key of lexico_tie_breaking is the name
         raise Unsupported("unknown name %s (or a name that is not defined on every path)" % n.id)
 
     def e_Constant(self, n, env):
@@ -654,6 +711,8 @@ class Translator:
         o = self.unwrap(self.expr(n.value, env), "AttributeError")
         if res(o.ty) == INST and n.attr == "budget_limit":
             return V("(budget %s)" % o.term, Q)
+        if is_obj(o.ty):
+            return self.field(o, n.attr)
         if res(o.ty) == PROJ and n.attr == "cost":
             # the projects handed around are the instance's own objects
             return V("(py_cost %s %s)" % (self.the_instance(env).term, o.term), Q)
@@ -661,7 +720,7 @@ class Translator:
 
     def the_instance(self, env):
         c = [v for k, v in env.items() if not k.startswith("$") and res(v.ty) == INST and v.extra.get("param")]
-        if len(c) != 1:
+        if len({v.term for v in c}) != 1:
             raise Unsupported("project.cost / total_cost needs the caller's (unmodified) instance")
         return c[0]
 
@@ -803,6 +862,12 @@ class Translator:
         if isinstance(op, (ast.In, ast.NotIn)):
             c = self.unwrap(right)
             ct = res(c.ty)
+            if ct == ABALLOT:
+                x = self.unwrap(left)
+                if res(x.ty) != PROJ:
+                    raise Unsupported("`in` on a ballot with something that is not a project")
+                r = V("(approves %s %s)" % (c.term, x.term), B)
+                return neg(r) if isinstance(op, ast.NotIn) else r
             if ct == KW:
                 if not (left.has_const and left.const == "resoluteness"):
                     raise Unsupported("membership test on a keyword dictionary for another key than 'resoluteness'")
@@ -832,6 +897,14 @@ class Translator:
             if lt == B and rt == B:
                 r = V("(py_bool_eq %s %s)" % (l.term, r_.term), B)
                 return neg(r) if isinstance(op, ast.NotEq) else r
+        if QX in (lt, rt) and lt in (Q, QX, NAT) and rt in (Q, QX, NAT):
+            a, b = self.coerce(l, QX).term, self.coerce(r_, QX).term
+            tab = {ast.Eq: "(Qx_eqb %s %s)" % (a, b), ast.NotEq: "(negb (Qx_eqb %s %s))" % (a, b),
+                   ast.Lt: "(Qx_ltb %s %s)" % (a, b), ast.LtE: "(Qx_leb %s %s)" % (a, b),
+                   ast.Gt: "(Qx_ltb %s %s)" % (b, a), ast.GtE: "(Qx_leb %s %s)" % (b, a)}
+            if type(op) not in tab:
+                raise Unsupported("comparison operator")
+            return V(tab[type(op)], B)
         natural = lambda v, t: t == NAT or (v.has_const and isinstance(v.const, int) and not isinstance(v.const, bool)
                                             and v.const >= 0)
         if (lt == NAT or rt == NAT) and natural(l, lt) and natural(r_, rt):
@@ -927,11 +1000,14 @@ class Translator:
     def elem_value(self, v, container, iter_node):
         """a value obtained by iterating over / subscripting `container`"""
         v = v.but()
+        if container.extra.get("enum_of") is not None and res(v.ty) != NAT:
+            container = container.extra["enum_of"]        # for i, x in enumerate(xs): x is an element of xs
         if is_object(v.ty) and container.oid is not None:
             v.oid = self.new_obj(FRESH)
             self.objs[v.oid].elem_src.add(container.oid)
         v.extra = dict(v.extra)
         v.extra["elem_of_term"] = container.term
+        v.extra["elem_subset"] = set(container.extra.get("subset_of", ())) | {container.term}
         if isinstance(iter_node, ast.Name):
             v.extra["elem_of"] = iter_node.id
         return v
@@ -970,7 +1046,7 @@ class Translator:
         if isinstance(n.elt, ast.Name) and isinstance(n.generators[0].target, ast.Name) \
                 and n.elt.id == n.generators[0].target.id:
             oid = self.new_obj(FRESH, self.elem_origin_of(it.oid) if it.oid else FRESH)
-            return V(src, List(et), oid)
+            return V(src, List(et), oid, extra={"subset_of": set(it.extra.get("subset_of", ())) | {it.term}})
         # the element expression: may raise (subscripts) -> py_all_some
         saved, self.hoists = self.hoists, []
         keep = self.nohoist
@@ -995,6 +1071,15 @@ class Translator:
         return V(b, List(e.ty), oid)
 
     e_GeneratorExp = e_ListComp
+
+    def e_SetComp(self, n, env):
+        v = self.e_ListComp(n, env)
+        if not same(v.ty, ALLOC):
+            raise Unsupported("set comprehension of something that is not a collection of projects")
+        v.extra = dict(v.extra)
+        v.extra["is_set"] = True
+        v.extra.setdefault("subset_of", set())
+        return v
 
     def e_List(self, n, env):
         vs = [self.expr(x, env) for x in n.elts]
@@ -1057,7 +1142,7 @@ class Translator:
         raise Unsupported("dict comprehension outside the fragment")
 
     def map_lookup(self, m, a, env):
-        if a.extra.get("elem_of_term") != m.extra["domain"]:
+        if a.extra.get("elem_of_term") != m.extra["domain"] and m.extra["domain"] not in a.extra.get("elem_subset", ()):
             raise Unsupported("lookup in a local dictionary with a key that is not known to be in it (KeyError)")
         if m.extra.get("rank"):
             return V("(py_last_index_of %s %s)" % (m.extra["domain"], a.term), NAT, extra={"position_in": m.extra["domain"]})
@@ -1190,7 +1275,88 @@ class Translator:
         if not is_object(v.ty):
             return v
         eo = FRESH if deep or v.oid is None else self.elem_origin_of(v.oid)
-        return v.but(oid=self.new_obj(FRESH, eo))
+        r = v.but(oid=self.new_obj(FRESH, eo))
+        r.extra = {k: x for k, x in v.extra.items() if k in ("subset_of", "is_set", "elems")}
+        if "subset_of" in r.extra:
+            r.extra["subset_of"] = set(r.extra["subset_of"]) | {v.term}
+        return r
+
+    def class_fields(self, cls):
+        """fields of a small class: __init__ is a sequence of `self.f = <parameter>`"""
+        node = self.classes[cls]
+        init = [x for x in node.body if isinstance(x, ast.FunctionDef) and x.name == "__init__"]
+        if len(init) != 1:
+            raise Unsupported("class %s without a single __init__" % cls)
+        a = init[0].args
+        params = [x.arg for x in a.args]
+        if a.vararg or a.kwarg or a.kwonlyargs or a.defaults or params[:1] != ["self"]:
+            raise Unsupported("%s.__init__ has a signature outside the fragment" % cls)
+        fields = []
+        for st in init[0].body:
+            if _is_doc(st) or isinstance(st, ast.Pass):
+                continue
+            if isinstance(st, ast.Assign) and len(st.targets) == 1 and isinstance(st.targets[0], ast.Attribute) \
+                    and isinstance(st.targets[0].value, ast.Name) and st.targets[0].value.id == "self" \
+                    and isinstance(st.value, ast.Name) and st.value.id in params[1:]:
+                fields.append((st.targets[0].attr, params.index(st.value.id) - 1))
+                continue
+            raise Unsupported("statement in %s.__init__ outside the fragment" % cls)
+        if len({f for f, _ in fields}) != len(fields):
+            raise Unsupported("%s.__init__ sets a field twice" % cls)
+        return fields, len(params) - 1
+
+    def construct(self, cls, n, env):
+        fields, nparams = self.class_fields(cls)
+        if n.keywords or len(n.args) != nparams:
+            raise Unsupported("construction of a %s with an unexpected argument list" % cls)
+        args = [self.unwrap(self.expr(a, env)) for a in n.args]
+        vals = [args[i] for _, i in fields]
+        vals = [self.num(v) if res(v.ty) in (NAT, B) else v for v in vals]
+        t = ObjT(cls, [v.ty for v in vals])
+        return V("(" + ", ".join(v.term for v in vals) + ")", t, self.new_obj(FRESH))
+
+    def field(self, o, name):
+        """(term, type) of the field of an object value"""
+        t = res(o.ty)
+        fields, _ = self.class_fields(t[1])
+        names = [f for f, _ in fields]
+        if name not in names:
+            raise Unsupported("%s has no field %s" % (t[1], name))
+        k, n_ = names.index(name), len(names)
+        term = o.term
+        for _ in range(n_ - 1 - k):
+            term = "(fst %s)" % term
+        if k > 0:
+            term = "(snd %s)" % term
+        return V(term, t[2][k])
+
+    def with_field(self, o, name, v):
+        t = res(o.ty)
+        fields, _ = self.class_fields(t[1])
+        names = [f for f, _ in fields]
+        k = names.index(name)
+        parts = [self.field(o, f).term for f in names]
+        parts[k] = self.coerce(v, t[2][k]).term
+        return V("(" + ", ".join(parts) + ")", t, o.oid)
+
+    def class_method(self, o, mname, n, env):
+        t = res(o.ty)
+        node = self.classes[t[1]]
+        ms = [x for x in node.body if isinstance(x, ast.FunctionDef) and x.name == mname]
+        if len(ms) != 1:
+            raise Unsupported("%s has no method %s" % (t[1], mname))
+        m = ms[0]
+        a = m.args
+        body = [x for x in m.body if not _is_doc(x) and not isinstance(x, ast.Pass)]
+        params = [x.arg for x in a.args]
+        if a.vararg or a.kwarg or a.kwonlyargs or a.defaults or m.decorator_list or params[:1] != ["self"] \
+                or len(body) != 1 or not isinstance(body[0], ast.Return) or body[0].value is None or n.keywords \
+                or len(n.args) != len(params) - 1:
+            raise Unsupported("method %s.%s outside the fragment (a single return)" % (t[1], mname))
+        env2 = {"self": o}
+        for p_, a_ in zip(params[1:], n.args):
+            env2[p_] = self.expr(a_, env)
+        return self.expr(body[0].value, env2)
 
     def kwargs(self, n, allowed):
         d = {}
@@ -1272,6 +1438,22 @@ class Translator:
         if name == "total_cost" and len(n.args) == 1 and not n.keywords:
             a = self.coerce(self.to_list(self.expr(n.args[0], env)), ALLOC)
             return V("(py_total_cost %s %s)" % (self.the_instance(env).term, a.term), Q)
+        if name == "float" and len(n.args) == 1 and not n.keywords and isinstance(n.args[0], ast.Constant) \
+                and n.args[0].value in ("inf", "+inf", "Infinity"):
+            return V("PInf", QX)
+        if name == "set" and len(n.args) == 1 and not n.keywords:
+            # a set of projects is the list of its elements in iteration order; the order in which a set built from
+            # a generator is iterated is taken to be the order of insertion (the rule theorems show it is immaterial)
+            a = self.to_list(self.expr(n.args[0], env))
+            if not same(a.ty, ALLOC):
+                raise Unsupported("set(...) of something that is not a collection of projects")
+            v = a.but(oid=self.new_obj(FRESH, self.elem_origin_of(a.oid) if a.oid else FRESH))
+            v.extra = dict(a.extra)
+            v.extra["is_set"] = True
+            v.extra.setdefault("subset_of", set())
+            return v
+        if name in self.classes:
+            return self.construct(name, n, env)
         if name in ("BudgetAllocation", "list", "copy", "deepcopy", "dict", "tuple"):
             kws = [k for k in n.keywords if not (name == "BudgetAllocation" and k.arg == "details")]
             if kws:       # BudgetAllocation(x, details=...): the details are not modelled
@@ -1414,6 +1596,18 @@ class Translator:
         o = self.unwrap(self.expr(f.value, env), "AttributeError")
         ot = res(o.ty)
         m = f.attr
+        if is_obj(ot):
+            return self.class_method(o, m, n, env)
+        if ot == APROFILE and m == "multiplicity" and len(n.args) == 1 and not n.keywords:
+            a = self.expr(n.args[0], env)
+            if res(a.ty) != ABALLOT or a.extra.get("elem_of_term") != o.term:
+                raise Unsupported("multiplicity(...) of a ballot that was not obtained by iterating over that profile")
+            return V("(Qnat (amul %s))" % a.term, Q)
+        if ot == APROFILE and m == "approval_score" and len(n.args) == 1 and not n.keywords:
+            a = self.expr(n.args[0], env)
+            if res(a.ty) != PROJ:
+                raise Unsupported("approval_score of something that is not a project")
+            return V("(py_approval_score %s %s)" % (o.term, a.term), Q)
         if ot == GROUPSAT and m == "total_satisfaction_project" and len(n.args) == 1 and not n.keywords:
             a = self.expr(n.args[0], env)
             if res(a.ty) != PROJ:
@@ -1421,7 +1615,7 @@ class Translator:
             return V("(%s %s)" % (o.term, a.term), Q)
         if ot == TIEBREAK and m == "order" and len(n.args) == 3 and not n.keywords:
             i_, p_, l_ = [self.expr(x, env) for x in n.args]
-            if not (res(i_.ty) == INST and i_.extra.get("param") and res(p_.ty) == PROFILE and p_.extra.get("param")):
+            if not (res(i_.ty) == INST and i_.extra.get("param") and res(p_.ty) in (PROFILE, APROFILE) and p_.extra.get("param")):
                 raise Unsupported("tie_breaking.order called on something else than the caller's instance and profile")
             l_ = self.coerce(self.to_list(l_), ALLOC)
             return V("(tb_order_of_key %s %s)" % (o.term, l_.term), ALLOC, self.new_obj(FRESH))
@@ -1480,7 +1674,7 @@ class Translator:
         if name == "_" or name not in self.loaded:
             return body_of(env2) if name == "_" or name not in env else body_of({k: x for k, x in env2.items() if k != name})
         simple = v.term.replace("_", "a").replace("'", "a").isalnum()
-        if (simple and not force_let) or res(v.ty) == NONE or v.ty in ("Macro", "Map"):
+        if (simple and not force_let) or res(v.ty) == NONE or v.ty in ("Macro", "Map", "RecFun"):
             env2[name] = v.but()
             return body_of(env2)
         g = self.gname(name)
@@ -1490,6 +1684,8 @@ class Translator:
     def mutate(self, env, oid, name, newv, body_of):
         """an in-place change of the object `oid` (reached through `name`): every name bound to it sees the new value"""
         if oid is not None:
+            if self.is_stored(oid, env):
+                raise Unsupported("in-place mutation of an object after it has been stored into a container")
             self.mark_mutated(oid)
             names = [k for k, x in env.items() if not k.startswith("$") and x.oid == oid]
         else:
@@ -1520,8 +1716,15 @@ class Translator:
             if a.vararg or a.kwarg or a.kwonlyargs or a.defaults or a.posonlyargs or s.decorator_list or not body:
                 raise Unsupported("local function signature outside the fragment")
             env2 = dict(env)
+            if any(isinstance(x, ast.Call) and isinstance(x.func, ast.Name) and x.func.id == s.name
+                   for st in body for x in ast.walk(st)):
+                self.recfuns.add(s.name)
+                env2[s.name] = V("tt", "RecFun", extra={"node": s})
+                return nxt(env2)
             if len(body) == 1 and isinstance(body[0], ast.Return) and body[0].value is not None:
                 body = body[0].value
+            if isinstance(body, list) and not any(isinstance(x, ast.Return) for st in body for x in ast.walk(st)):
+                self.procs.add(s.name)
             env2[s.name] = V("tt", "Macro", extra={"macro": ([x.arg for x in a.args], body, env)})
             return nxt(env2)
         if isinstance(s, ast.AnnAssign):
@@ -1578,12 +1781,47 @@ class Translator:
             if isinstance(c, ast.Call) and isinstance(c.func, ast.Attribute) and c.func.attr == "remove" \
                     and isinstance(c.func.value, ast.Name) and len(c.args) == 1 and not c.keywords:
                 return self.remove(c.func.value.id, c.args[0], env, ctx, nxt, h0)
+            if isinstance(c, ast.Call) and isinstance(c.func, ast.Attribute) and c.func.attr == "sort" \
+                    and isinstance(c.func.value, ast.Name) and not c.args and not c.keywords:
+                nm = c.func.value.id
+                if nm not in env:
+                    raise Unsupported("unknown name %s" % nm)
+                x = env[nm]
+                l = self.unwrap(x, "AttributeError")
+                if not same(l.ty, ALLOC):
+                    raise Unsupported(".sort() of something that is not a list of projects")
+                newv = V("(py_sorted_projects %s)" % l.term, ALLOC, x.oid)
+                return self.wrap(ctx, self.mutate(env, x.oid, nm, newv, nxt), h0)
+            if isinstance(c, ast.Call) and isinstance(c.func, ast.Name) and c.func.id in self.recfuns:
+                return self.rec_call(c, env, ctx, nxt, h0)
+            if isinstance(c, ast.Call) and isinstance(c.func, ast.Name) and c.func.id in env \
+                    and env[c.func.id].ty == "Macro" and isinstance(env[c.func.id].extra["macro"][1], list) \
+                    and not any(isinstance(x, ast.Return) for st in env[c.func.id].extra["macro"][1] for x in ast.walk(st)):
+                return self.proc_call(c, env, ctx, nxt, h0)
+            if isinstance(c, ast.Call) and isinstance(c.func, ast.Name) and c.func.id == "__replace__":
+                x, a_ = env[c.args[0].id], env[c.args[1].id]
+                newv = V(a_.term, x.ty, x.oid, extra={k: y for k, y in x.extra.items() if k in ("subset_of", "is_set")})
+                if not same(x.ty, a_.ty):
+                    raise Unsupported("internal: rebuilt list of another type")
+                if x.oid is not None:
+                    self.mark_mutated(x.oid)
+                env2 = {k: y for k, y in env.items() if k != c.args[1].id}
+                for k, y in env.items():
+                    if not k.startswith("$") and (k == c.args[0].id or (x.oid is not None and y.oid == x.oid)):
+                        env2[k] = newv
+                return nxt(env2)
             if isinstance(c, ast.Call) and isinstance(c.func, ast.Name) and c.func.id == "print":
                 return nxt(env)
             self.expr(c, env)         # evaluated for the exceptions it may raise only
             return self.wrap(ctx, nxt(env), h0)
         if isinstance(s, ast.If):
+            self.rest_has_rec = any(isinstance(x, ast.Call) and isinstance(x.func, ast.Name) and x.func.id in self.recfuns
+                                    for st in rest for x in ast.walk(st))
             return self.if_stmt(s, env, ctx, nxt)
+        if isinstance(s, ast.Return) and self.rec_active is not None:
+            if s.value is not None:
+                raise Unsupported("a recursive local function that returns a value")
+            return self.rec_active["fall"](env)
         if isinstance(s, ast.Return):
             v = self.expr(s.value, env) if s.value is not None else V("tt", NONE, has_const=True)
             return self.wrap(ctx, self.ret(ctx, v), h0)
@@ -1601,6 +1839,9 @@ class Translator:
             self.exits += 1
             return ctx.cont(env)
         if isinstance(s, ast.For):
+            d = self.update_loop(s, env)
+            if d is not None:
+                return self.block(d + rest, env, ctx)
             return self.loop(s, env, ctx, nxt)
         if isinstance(s, ast.While):
             return self.loop(s, env, ctx, nxt)
@@ -1655,7 +1896,11 @@ class Translator:
                 c = self.objs[x.oid]
                 c.elem = join_origin(c.elem, self.elem_origin_of(a.oid))
         newv = V(("(Some %s)" % term) if was_opt else term, x.ty, x.oid)
-        return self.wrap(ctx, self.mutate(env, x.oid, name, newv, nxt), h0)
+        env_s = env
+        if single and a.oid is not None:
+            env_s = dict(env)
+            env_s["$stored"] = frozenset(env.get("$stored", ())) | {a.oid}
+        return self.wrap(ctx, self.mutate(env_s, x.oid, name, newv, nxt), h0)
 
     def remove(self, name, arg, env, ctx, nxt, h0):
         """xs.remove(v): the first occurrence; ValueError when there is none"""
@@ -1666,8 +1911,8 @@ class Translator:
         a = self.expr(arg, env)
         if not same(l.ty, ALLOC) or res(a.ty) != PROJ:
             raise Unsupported(".remove outside the fragment (a project from a list of projects)")
-        b = self.hoist("(py_remove %s %s)" % (l.term, a.term), "ValueError", "rm")
-        newv = V(b, ALLOC, x.oid)
+        b = self.hoist("(py_remove %s %s)" % (l.term, a.term), "KeyError" if x.extra.get("is_set") else "ValueError", "rm")
+        newv = V(b, ALLOC, x.oid, extra={k: y for k, y in x.extra.items() if k in ("subset_of", "is_set")})
         return self.wrap(ctx, self.mutate(env, x.oid, name, newv, nxt), h0)
 
     def store_item(self, t, value, op, env, ctx, nxt, h0):
@@ -1726,6 +1971,24 @@ class Translator:
         if name not in env:
             raise Unsupported("unknown name %s" % name)
         x = env[name]
+        if is_obj(x.ty):
+            v = self.expr(value, env)
+            if op is not None:
+                cur = self.field(x, t.attr)
+                if not isinstance(op, (ast.Add, ast.Sub, ast.Mult)):
+                    raise Unsupported("augmented attribute assignment outside the fragment")
+                sym = {ast.Add: "+", ast.Sub: "-", ast.Mult: "*"}[type(op)]
+                v = V("(%s %s %s)" % (self.num(cur).term, sym, self.num(v).term), Q)
+            ft = res(self.field(x, t.attr).ty)
+            if ft == Q and is_opt(v.ty):
+                v = self.unwrap(v)
+            if ft == Q and res(v.ty) == QX:
+                # a float infinity stored where exact numbers live: outside what the translation can represent; the
+                # generated function reports it as an exception of its own (the theorems show it cannot happen)
+                b = self.hoist("(py_finite %s)" % v.term, "FloatInfinity", "f")
+                v = V(b, Q)
+            newv = self.with_field(x, t.attr, v)
+            return self.wrap(ctx, self.mutate(env, x.oid, name, newv, nxt), h0)
         if res(x.ty) != INST or t.attr != "budget_limit":
             raise Unsupported("assignment to the attribute .%s of a %r" % (t.attr, res(x.ty)))
         v = self.expr(value, env)
@@ -1812,7 +2075,10 @@ class Translator:
         (value form: let '(x, y) := if c then (..) else (..) in rest), else with the rest of the block continued in
         both (continuation form)"""
         def has_exit(stmts):
-            return _has_exit(stmts) or any(isinstance(n, (ast.For, ast.While)) for n in _walk(stmts))
+            return _has_exit(stmts) or any(isinstance(n, (ast.For, ast.While)) or (
+                isinstance(n, ast.Call) and isinstance(n.func, ast.Name) and n.func.id in self.recfuns) for n in _walk(stmts))
+        use_k = self.rest_has_rec
+        self.rest_has_rec = False
         if not force_cps and not any(has_exit(st) for st, _ in parts):
             snap = self.snapshot()
             e0 = self.exits
@@ -1830,10 +2096,27 @@ class Translator:
                 if r is not None:
                     return r
             self.restore(snap)
+        if use_k:
+            # the rest of the block is big (it defines / calls a recursive function): it is not copied into the
+            # branches but becomes a local continuation  let k := fun <changed variables> => rest in ...
+            k = self.tmp("J")
+            ends, starts, terms = [], [], []
+            for st, e0_ in parts:
+                def fall(e, e0_=e0_):
+                    ends.append(e)
+                    starts.append(e0_)
+                    return "$%s_%d$" % (k, len(ends) - 1)
+                terms.append(self.block(st, e0_, Ctx(fall, ctx.leave, ctx.brk, ctx.cont)))
+            if not ends:
+                return emit(*terms)
+            r = self.join_branches(emit, terms, ends, starts, env, nxt, k, kform=True)
+            if r is None:
+                raise Unsupported("variables of different types on the branches of a conditional")
+            return r
         c2 = ctx.with_fall(nxt)
         return emit(*[self.block(st, e, c2) for st, e in parts])
 
-    def join_branches(self, emit, terms, ends, starts, env, nxt, k):
+    def join_branches(self, emit, terms, ends, starts, env, nxt, k, kform=False):
         names = []
         for e in ends:
             for n, v in e.items():
@@ -1851,7 +2134,10 @@ class Translator:
         mods.sort(key=lambda n: self.order.get(n, 10 ** 6))
         gone = [n for n in env if not n.startswith("$") and not all(n in e for e in ends)]
         env2 = {n: v for n, v in env.items() if n not in gone}
-        if not mods:
+        st_ = frozenset().union(*[frozenset(e.get("$stored", ())) for e in ends]) if ends else frozenset()
+        if st_:
+            env2["$stored"] = st_
+        if not mods and not kform:
             return nxt(env2)
         types = {}
         def val_at(i, n):
@@ -1870,6 +2156,8 @@ class Translator:
                 src = e[n]
                 vals.append(self.coerce(src, types[n]).term)
             tup = vals[0] if len(vals) == 1 else "(" + ", ".join(vals) + ")"
+            if kform:
+                tup = "(k%s %s)" % (k, " ".join(vals) if vals else "tt")
             terms = [t.replace("$%s_%d$" % (k, i), tup) for t in terms]
         merged = {}
         binders = []
@@ -1891,10 +2179,206 @@ class Translator:
                 raise Unsupported("rule parameters written on one branch of a conditional only")
             env2[n] = V(g, types[n], oid, extra=extra)
             self.note_binding(n, env2[n])
+        if kform:
+            ps = "".join(" (%s : %s)" % (b_, gty(types[n_])) for b_, n_ in zip(binders, mods)) or " (_ : unit)"
+            return "let k%s := (fun%s =>\n  %s) in\n  %s" % (k, ps, nxt(env2), emit(*terms))
         lhs = binders[0] if len(binders) == 1 else "'(" + ", ".join(binders) + ")"
         return "let %s := %s in\n  %s" % (lhs, emit(*terms), nxt(env2))
 
     # ---------------- loops ----------------
+    # ---------------- recursive local functions ----------------
+    def rec_call(self, c, env, ctx, nxt, h0):
+        """a call `aux(...)` (as a statement) of a recursive local function that returns nothing and works by
+        changing the objects it is handed: translated by state passing -- the function becomes a fuelled `fix` that
+        returns the final values of its mutable arguments, and the caller's names for those objects are rebound"""
+        name = c.func.id
+        if c.keywords:
+            raise Unsupported("keyword arguments in a call of a recursive local function")
+        if self.rec_active is not None:
+            if self.rec_active["name"] != name:
+                raise Unsupported("nested recursive local functions")
+            return self.rec_inner(c, env, ctx, nxt, h0)
+        node = env[name].extra["node"]
+        params = [x.arg for x in node.args.args]
+        if len(c.args) != len(params):
+            raise Unsupported("call of %s with the wrong number of arguments" % name)
+        args = [self.expr(a, env) for a in c.args]
+        body = [x for x in node.body if not _is_doc(x)]
+        rcalls = [x for st in body for x in ast.walk(st)
+                  if isinstance(x, ast.Call) and isinstance(x.func, ast.Name) and x.func.id == name]
+        for rc in rcalls:
+            if rc.keywords or len(rc.args) != len(params):
+                raise Unsupported("recursive call of %s with an unexpected argument list" % name)
+        changed = set(_assigned(body, None, self.procs))
+        invariant = [all(isinstance(rc.args[i], ast.Name) and rc.args[i].id == params[i] for rc in rcalls)
+                     and params[i] not in changed for i in range(len(params))]
+        # constant invariant arguments are folded into the body (resolute=True / False)
+        for i, p_ in enumerate(params):
+            if invariant[i] and args[i].has_const and isinstance(args[i].const, bool):
+                node = specialise(node, p_, args[i].const)
+        body = [x for x in node.body if not _is_doc(x)]
+        varying = [i for i in range(len(params)) if not invariant[i]]
+        self.uses_fuel = True
+        fix, fuel_in = self.gname(name), self.tmp("fuel")
+        env_f = {k: v for k, v in env.items() if k not in params}
+        vparams = []
+        for i, p_ in enumerate(params):
+            a = args[i]
+            if invariant[i]:
+                env_f[p_] = a
+                continue
+            a = self.unwrap(a)
+            g = self.gname(p_)
+            oid = self.new_obj(FRESH, sources=[a.oid] if a.oid is not None else []) if is_object(a.ty) else None
+            ex = {k: y for k, y in a.extra.items() if k in ("is_set",)}
+            if "subset_of" in a.extra:
+                ex["subset_of"] = set(a.extra["subset_of"]) | {a.term}
+            pv = V(g, a.ty, oid, extra=ex)
+            env_f[p_] = pv
+            self.note_binding(p_, pv)
+            vparams.append((i, p_, pv, a))
+        state = [(i, p_, pv) for i, p_, pv, _ in vparams if is_object(pv.ty)]
+
+        def pack(e):
+            vals = []
+            for _, p_, pv in state:
+                if p_ not in e:
+                    raise Unsupported("the parameter %s is undefined at the end of %s" % (p_, name))
+                vals.append(self.coerce(e[p_], pv.ty).term)
+            return "(Ok %s)" % ("tt" if not vals else vals[0] if len(vals) == 1 else "(" + ", ".join(vals) + ")")
+        self.rec_active = {"name": name, "fix": fix, "fuel": fuel_in, "params": params, "invariant": invariant,
+                           "vparams": vparams, "state": state, "fall": pack}
+        fixed = [(params[i], args[i].oid) for i in range(len(params)) if invariant[i] and args[i].oid is not None]
+        before = {o: self.objs[o].mutated for _, o in fixed}
+        try:
+            body_t = self.block(body, env_f, Ctx(pack, lambda r: r))
+        finally:
+            self.rec_active = None
+        for p_, o in fixed:
+            if self.objs[o].mutated and not before[o]:
+                raise Unsupported("the recursive function changes its argument %s, which is not threaded through the "
+                                  "recursion" % p_)
+        stype = "unit" if not state else gty(state[0][2].ty) if len(state) == 1 else \
+            "(" + " * ".join(gty(pv.ty) for _, _, pv in state) + ")%type"
+        fuel_out = self.tmp("fuel")
+        ps = "".join(" (%s : %s)" % (pv.term, gty(pv.ty)) for _, _, pv, _ in vparams)
+        fixt = ("(fix %s (%s : nat)%s {struct %s} : py_res %s :=\n    match %s with\n    | O => OutOfFuel\n    | Datatypes.S %s =>\n    %s\n    end)"
+                % (fix, fuel_out, ps, fuel_out, stype, fuel_out, fuel_in, body_t))
+        call = self.call_and_rebind(fix, "fuel", [a for _, _, _, a in vparams], vparams, state, env, ctx, nxt)
+        return self.wrap(ctx, "let %s := %s in\n  %s" % (fix, fixt, call), h0)
+
+    def call_and_rebind(self, fix, fuel, argvals, vparams, state, env, ctx, nxt):
+        terms = [self.coerce(a, pv.ty).term for a, (_, _, pv, _) in zip(argvals, vparams)]
+        env2 = dict(env)
+        binders = []
+        for (i, p_, pv), a in zip(state, [a for a, (j, _, pv2, _) in zip(argvals, vparams) if is_object(pv2.ty)]):
+            g = self.tmp("s")
+            binders.append(g)
+            if a.oid is not None:
+                self.mark_mutated(a.oid)
+                if pv.oid is not None and a.oid != pv.oid:
+                    self.objs[pv.oid].sources.add(a.oid)
+                for k, y in env.items():
+                    if not k.startswith("$") and y.oid == a.oid:
+                        env2[k] = V(g, pv.ty, a.oid, extra={k2: z for k2, z in y.extra.items() if k2 in ("subset_of", "is_set")})
+        handed = {a.oid for a in argvals if a.oid is not None}
+        if handed:
+            env2["$stored"] = frozenset(env.get("$stored", ())) | handed
+        pat = "_" if not binders else binders[0] if len(binders) == 1 else "(" + ", ".join(binders) + ")"
+        e_ = self.tmp("e")
+        self.exits += 1
+        return ("match %s %s %s with\n  | Ok %s => %s\n  | Raise %s => %s\n  | OutOfFuel => %s\n  end" % (
+            fix, fuel, " ".join(terms), pat, nxt(env2), e_, ctx.leave("(Raise %s)" % e_), ctx.leave("OutOfFuel")))
+
+    def rec_inner(self, c, env, ctx, nxt, h0):
+        ra = self.rec_active
+        argvals = []
+        for i, p_, pv, _ in ra["vparams"]:
+            a = self.unwrap(self.expr(c.args[i], env))
+            need = pv.extra.get("subset_of")
+            if need is not None and not need <= (set(a.extra.get("subset_of", ())) | {a.term}):
+                raise Unsupported("recursive call with a collection that is not known to stay within the original one")
+            argvals.append(a)
+        call = self.call_and_rebind(ra["fix"], ra["fuel"], argvals, ra["vparams"], ra["state"], env, ctx, nxt)
+        return self.wrap(ctx, call, h0)
+
+    def proc_call(self, c, env, ctx, nxt, h0):
+        """a local function without return value called as a statement: its body is executed in place, the parameters
+        being further names of the caller's objects"""
+        params, body, menv = env[c.func.id].extra["macro"]
+        if c.keywords or len(c.args) != len(params):
+            raise Unsupported("call of a local procedure with an unexpected argument list")
+        args = [self.expr(a, env) for a in c.args]
+        depth = getattr(self, "_proc_depth", 0)
+        if depth > 3:
+            raise Unsupported("local procedures nested too deeply")
+        local = {y.id for st in body for y in ast.walk(st) if isinstance(y, ast.Name) and isinstance(y.ctx, ast.Store)}
+        for st in body:
+            for x in ast.walk(st):
+                if isinstance(x, ast.Name) and x.id not in params and x.id not in local and (x.id in menv or x.id in env):
+                    a_, b_ = menv.get(x.id), env.get(x.id)
+                    if x.id in self.recfuns or (a_ is not None and a_.ty in ("Macro", "RecFun")):
+                        continue
+                    if a_ is None or b_ is None or a_.term != b_.term or a_.oid != b_.oid:
+                        raise Unsupported("local procedure whose free name %s changes between its definition and a call" % x.id)
+        env_c = dict(env)
+        for p_, a_ in zip(params, args):
+            env_c[p_] = a_
+            self.loaded.add(p_)
+
+        def back(e):
+            by_oid = {}
+            for k, y in e.items():
+                if not k.startswith("$") and y.oid is not None:
+                    by_oid[y.oid] = y
+            out = {}
+            for k, y in env.items():
+                if k.startswith("$"):
+                    continue
+                out[k] = by_oid.get(y.oid, y) if y.oid is not None else y
+            for k, y in e.items():
+                if k.startswith("$"):
+                    out[k] = y
+            return nxt(out)
+        self._proc_depth = depth + 1
+        try:
+            t = self.block(list(body), env_c, ctx.with_fall(back))
+        finally:
+            self._proc_depth = depth
+        return self.wrap(ctx, t, h0)
+
+    def update_loop(self, s, env):
+        """`for v in xs: ... v.f = e ...` changes the elements of xs in place: rebuilt as
+        acc = []; for v in xs: ...; acc.append(v)   and then xs (the object) becomes acc"""
+        if not (isinstance(s.target, ast.Name) and isinstance(s.iter, ast.Name) and not s.orelse):
+            return None
+        t = s.target.id
+        stores = [x for st in s.body for x in ast.walk(st)
+                  if isinstance(x, ast.Attribute) and isinstance(x.ctx, ast.Store) and isinstance(x.value, ast.Name) and x.value.id == t]
+        if not stores or getattr(s, "_desugared", False):
+            return None
+        if any(isinstance(x, (ast.Break, ast.Continue)) for st in s.body for x in ast.walk(st)):
+            raise Unsupported("break / continue in a loop that changes the elements it iterates over")
+        if any(isinstance(x, ast.Name) and x.id == s.iter.id for st in s.body for x in ast.walk(st)):
+            raise Unsupported("a loop that changes the elements of a list and reads the list itself")
+        acc = "acc__%d" % self._fresh_id()
+        self.loaded.add(acc)
+        new = ast.For(target=s.target, iter=s.iter, orelse=[], body=list(s.body) + [
+            ast.Expr(value=ast.Call(func=ast.Attribute(value=ast.Name(id=acc, ctx=ast.Load()), attr="append", ctx=ast.Load()),
+                                    args=[ast.Name(id=t, ctx=ast.Load())], keywords=[]))])
+        new._desugared = True
+        init = ast.Assign(targets=[ast.Name(id=acc, ctx=ast.Store())], value=ast.List(elts=[], ctx=ast.Load()))
+        fin = ast.Expr(value=ast.Call(func=ast.Name(id="__replace__", ctx=ast.Load()),
+                                      args=[ast.Name(id=s.iter.id, ctx=ast.Load()), ast.Name(id=acc, ctx=ast.Load())], keywords=[]))
+        out = [init, new, fin]
+        for x in out:
+            ast.fix_missing_locations(x)
+        return out
+
+    def _fresh_id(self):
+        self.names["$id"] = self.names.get("$id", 0) + 1
+        return self.names["$id"]
+
     def loop(self, s, env, ctx, nxt):
         is_for = isinstance(s, ast.For)
         if s.orelse:
@@ -1908,7 +2392,8 @@ class Translator:
         tnames = set()
         if is_for:
             tnames = {n.id for n in ast.walk(s.target) if isinstance(n, ast.Name)}
-        cands = [n for n in _assigned(s.body) if n in env and n not in tnames]
+        rec = (self.rec_active["name"], [i for i, _, _ in self.rec_active["state"]]) if self.rec_active else None
+        cands = [n for n in _assigned(s.body, rec, self.procs) if n in env and n not in tnames]
         oids = {env[n].oid for n in cands if env[n].oid is not None}
         for n, v in env.items():
             if not n.startswith("$") and n not in cands and n not in tnames and v.oid in oids:
@@ -2014,6 +2499,9 @@ class Translator:
         init = "tt" if not carried else (init_vals[0] if len(carried) == 1 else "(" + ", ".join(init_vals) + ")")
         # after the loop
         env_a = {k2: v for k2, v in env.items() if k2 not in tnames}
+        st_ = frozenset(env.get("$stored", ())).union(*[frozenset(e.get("$stored", ())) for e in ends]) if ends else frozenset(env.get("$stored", ()))
+        if st_:
+            env_a["$stored"] = st_
         outs = []
         for n in carried:
             g = self.gname(n)
@@ -2049,6 +2537,7 @@ class Translator:
 EXH = "pabutools/rules/exhaustion.py"
 COMP = "pabutools/rules/composition.py"
 GREEDY = "pabutools/rules/greedywelfare/greedywelfare_rule.py"
+PHRAG = "pabutools/rules/phragmen.py"
 
 
 def _sig(mode_t):
@@ -2071,8 +2560,12 @@ TARGETS = [
     # the additive fast path of the greedy rule: resolute (the irresolute call is delegated to the general scheme),
     # analytics switched off (the details object is not modelled)
     (GREEDY, "greedy_utilitarian_scheme_additive", ("greedy",), None),
+    # Phragmen's sequential rule (recursive inner function, voters as objects with a mutable load)
+    (PHRAG, "sequential_phragmen", (True, False), "phragmen"),
 ]
 FLAGS = {"greedy": {"resoluteness": True, "analytics": False}}
+# per-target parameter types that differ from the common table
+SIG_OVERRIDES = {"phragmen": {"profile": APROFILE, "initial_loads": Opt(List(Q)), "tie_breaking": Opt(TIEBREAK)}}
 
 
 class Def:
@@ -2084,7 +2577,7 @@ class Def:
 ORIGIN_TERM = {"fresh": "Fresh", "rule": "RuleResult"}
 
 
-def translate_function(node, fname, mode, kw_type, module_names=()):
+def translate_function(node, fname, mode, kw_type, module_names=(), classes=None):
     """-> (params [(gallina name, gallina type)], body term, result type, alias table)"""
     a = node.args
     if a.vararg or a.kwarg or a.kwonlyargs or a.posonlyargs or node.decorator_list:
@@ -2102,7 +2595,10 @@ def translate_function(node, fname, mode, kw_type, module_names=()):
             raise Unsupported("no parameter `resoluteness`")
         node = specialise(node, "resoluteness", mode)
     sig = _sig(ALLOC if mode in (True, None) else List(ALLOC))
-    sig["rule_params"] = kw_type
+    if isinstance(kw_type, str):
+        sig.update(SIG_OVERRIDES[kw_type])
+    else:
+        sig["rule_params"] = kw_type
     pnames = [x.arg for x in node.args.args if not (mode is not None and x.arg == "resoluteness") and x.arg not in fixed]
     defaults = {}
     allp = [x.arg for x in node.args.args]
@@ -2119,6 +2615,7 @@ def translate_function(node, fname, mode, kw_type, module_names=()):
         tr.rtype = rtype
         tr.loaded = {n.id for st in node.body for n in ast.walk(st) if isinstance(n, ast.Name) and isinstance(n.ctx, ast.Load)}
         tr.module_names = set(module_names)
+        tr.classes = dict(classes or {})
         # names read only through an attribute / subscript / method call count as read as well
         env, gparams = {}, []
         for p in pnames:
@@ -2148,6 +2645,8 @@ def translate_function(node, fname, mode, kw_type, module_names=()):
         raise Unsupported("the return type does not stabilise")
     if tr.rtype is None:
         raise Unsupported("the function never returns")
+    for x in sorted(tr.extras):
+        gparams.append((x, tr.extras[x]))
     if tr.uses_fuel:
         gparams.append(("fuel", "nat"))
     # aliasing table; a mutated object whose origin cannot be classified fails closed
@@ -2186,7 +2685,7 @@ class World:
         self.defs = []
         self.errors = []
         trees = {}
-        for rel in (EXH, COMP, GREEDY):
+        for rel in (EXH, COMP, GREEDY, PHRAG):
             try:
                 path = os.path.join(repo, rel)
                 trees[rel] = ast.parse(open(path).read(), filename=path)
@@ -2213,11 +2712,13 @@ class World:
                                                                            else " with " + ", ".join("%s=%s" % kv for kv in FLAGS[mode].items())),
                                                   ast.unparse(_strip_docstrings(node)))
                 try:
-                    names = set()
+                    names, classes = set(), {}
                     for st in trees[rel].body:
-                        if isinstance(st, ast.ImportFrom) and st.module == "math":
+                        if isinstance(st, ast.ImportFrom) and st.module in ("math", "pabutools.tiebreaking"):
                             names |= {al.asname or al.name for al in st.names}
-                    d.params, d.body, d.rtype, d.alias = translate_function(node, fname, mode, kwt, names)
+                        if isinstance(st, ast.ClassDef) and not st.bases and not st.decorator_list:
+                            classes[st.name] = st
+                    d.params, d.body, d.rtype, d.alias = translate_function(node, fname, mode, kwt, names, classes)
                     d.rt = gty(d.rtype)
                 except Unsupported as e:
                     d.error = str(e)
@@ -2236,7 +2737,7 @@ class World:
         for e in self.errors:
             L.append("(* SOURCE FILE NOT READABLE: %s *)" % _comment_safe(e))
         failed = []
-        by_file = {EXH: [], COMP: [], GREEDY: []}
+        by_file = {EXH: [], COMP: [], GREEDY: [], PHRAG: []}
         for d in self.defs:
             L.append("(* " + _comment_safe(d.comment) + " *)")
             if d.error is not None:
@@ -2254,7 +2755,7 @@ class World:
                 L.append("Definition %s : list py_alias :=\n  [%s]." % (d.alias_name, ";\n   ".join(items)))
             L.append("")
         L.append("End Gen.")
-        for rel, nm in ((EXH, "exhaustion"), (COMP, "composition"), (GREEDY, "greedy")):
+        for rel, nm in ((EXH, "exhaustion"), (COMP, "composition"), (GREEDY, "greedy"), (PHRAG, "phragmen")):
             L.append("Definition gen_untranslated_%s : list string := [%s]." % (nm, "; ".join(coq_string(x) for x in by_file[rel])))
         return "\n".join(L) + "\n"
 
